@@ -758,6 +758,83 @@ func signedChecks(c *ctxT) bool {
 	return true
 }
 
+// certChecks: a certificate is the stored / gossiped encoding of a set of votes. For every assignment of the per-vote
+// signed fields (Upgrade, TurnOffline) to 3 votes of 3 keys, in every order: Compress -> ToBytes -> FromBytes -> ToBytes
+// is stable, and the vote rebuilt from each decoded signature the way ValidateBlockCert rebuilds it (common round / step /
+// hash of the certificate + the per-signature fields) carries exactly the signed fields of the original vote and
+// recovers the original signer.
+func certChecks(c *ctxT) bool {
+	ups := []uint32{0, 12, 13}
+	offs := []bool{false, true}
+	parent, voted := common.Hash{0x11}, common.Hash{0x22}
+	type pv struct {
+		up  uint32
+		off bool
+	}
+	var dom []pv
+	for _, u := range ups {
+		for _, o := range offs {
+			dom = append(dom, pv{u, o})
+		}
+	}
+	n := len(dom)
+	for _, nv := range []int{1, 2, 3} {
+		total := 1
+		for i := 0; i < nv; i++ {
+			total *= n
+		}
+		for code := 0; code < total; code++ {
+			var votes []*types.Vote
+			var want []common.Address
+			x := code
+			for i := 0; i < nv; i++ {
+				d := dom[x%n]
+				x /= n
+				k := replica.Key(1 + i)
+				v := &types.Vote{Header: &types.VoteHeader{Round: 7, Step: 2, ParentHash: parent, VotedHash: voted, TurnOffline: d.off, Upgrade: d.up}}
+				h := crypto.SignatureHash(v)
+				v.Signature, _ = crypto.Sign(h[:], k)
+				votes = append(votes, v)
+				want = append(want, crypto.PubkeyToAddress(k.PublicKey))
+			}
+			c.evals++
+			c.run.Add("vote_sets_compressed", 1)
+			cert := (&types.FullBlockCert{Votes: votes}).Compress()
+			b1, err := cert.ToBytes()
+			if err != nil {
+				c.run.Violation("cert-of-votes:encode", fmt.Sprintf("certificate of %d votes does not encode: %v", nv, err), nil)
+				return false
+			}
+			dec := new(types.BlockCert)
+			if err := dec.FromBytes(b1); err != nil {
+				c.run.Violation("cert-of-votes:decode", fmt.Sprintf("certificate of %d votes does not decode: %v", nv, err), nil)
+				return false
+			}
+			if b2, _ := dec.ToBytes(); !bytes.Equal(b1, b2) {
+				c.run.Violation("cert-of-votes:reencode", "certificate re-encodes to other bytes", nil)
+				return false
+			}
+			if len(dec.Signatures) != nv {
+				c.run.Violation("cert-of-votes:count", fmt.Sprintf("certificate of %d votes decodes to %d signatures", nv, len(dec.Signatures)), nil)
+				return false
+			}
+			for i, sg := range dec.Signatures {
+				rb := &types.Vote{Header: &types.VoteHeader{Step: dec.Step, Round: dec.Round, TurnOffline: sg.TurnOffline, Upgrade: sg.Upgrade, VotedHash: dec.VotedHash, ParentHash: parent}, Signature: sg.Signature}
+				o := votes[i].Header
+				if rb.Header.Round != o.Round || rb.Header.Step != o.Step || rb.Header.VotedHash != o.VotedHash || rb.Header.TurnOffline != o.TurnOffline || rb.Header.Upgrade != o.Upgrade {
+					c.run.Violation("cert-of-votes:signed-field-lost", fmt.Sprintf("vote %d of %d (Upgrade=%d TurnOffline=%v): the vote rebuilt from the decoded certificate has Upgrade=%d TurnOffline=%v round=%d step=%d", i, nv, o.Upgrade, o.TurnOffline, rb.Header.Upgrade, rb.Header.TurnOffline, rb.Header.Round, rb.Header.Step), map[string]interface{}{"votes": nv, "code": code, "index": i})
+					return false
+				}
+				if got := rb.VoterAddr(); got != want[i] {
+					c.run.Violation("cert-of-votes:signer-changes", fmt.Sprintf("vote %d of %d: the vote rebuilt from the decoded certificate recovers %s, signed by %s", i, nv, got.Hex(), want[i].Hex()), map[string]interface{}{"votes": nv, "code": code, "index": i})
+					return false
+				}
+			}
+		}
+	}
+	return true
+}
+
 // crossCheck lists receiver types with a ToBytes+FromBytes pair in the anchored packages.
 func crossCheck(run *report.Run, all map[string]func() interface{}) {
 	dirs := []string{"blockchain/types", "core/state", "core/state/snapshot", "protocol", "blockchain/attachments", "core/flip"}
@@ -840,6 +917,7 @@ func main() {
 		run.Add("types_checked", 1)
 	}
 	signedChecks(c)
+	certChecks(c)
 	run.Sample(map[string]interface{}{"type": "types.Transaction", "base_object": fmt.Sprintf("%+v", base(registry["types.Transaction"]))[:300]})
 	run.Set("evaluations", c.evals)
 	run.Set("distinct_nontrivial", run.Get("fields_enumerated"))
@@ -851,6 +929,6 @@ func main() {
 	run.Set("transient_allow_list", tr)
 	run.Assume = append(run.Assume, "documented normalisations: nil<->empty slices/maps, nil<->zero big.Int; time.Time/decimal fields compared through their string form",
 		"values between the listed representatives (0, 1, 2, max of the width, empty/1/300-byte strings, 2^200) are outside the bound")
-	run.Finish("exploration", "for each of the encodable types (registry cross-checked against every ToBytes/FromBytes pair in the anchored source files) a base object with every field (exported or not, found by reflection) populated with a distinguishing value, then every field x every value of its small domain (thorough: also pairs of fields): decode(encode(x)) == x modulo the documented normalisations, encode(decode(encode(x))) == encode(x), Hash() stable, every field influences the encoding unless on the transient allow-list; for the 6 signed types every non-signature field change changes the recovered signer")
+	run.Finish("exploration", "for each of the encodable types (registry cross-checked against every ToBytes/FromBytes pair in the anchored source files) a base object with every field (exported or not, found by reflection) populated with a distinguishing value, then every field x every value of its small domain (thorough: also pairs of fields): decode(encode(x)) == x modulo the documented normalisations, encode(decode(encode(x))) == encode(x), Hash() stable, every field influences the encoding unless on the transient allow-list; for the 6 signed types every non-signature field change changes the recovered signer; certificates as the encoding of vote sets: every assignment of (Upgrade in {0,12,13}) x (TurnOffline) to 1..3 votes -> Compress/encode/decode/re-encode stable and every vote rebuilt from the decoded certificate (as ValidateBlockCert rebuilds it) keeps its signed fields and its signer")
 	_ = os.Stdout
 }
